@@ -36,6 +36,15 @@ const ALPHA: [(&str, bool); 16] = [
 const TOG: [(&str, bool); 6] = [("3 m", true), ("ans * 2", true), ("1 m + 1 s", true), ("3 m -> ft", false), ("7 kg", true), ("_ -> digits 3", false)];
 const TOG_LETTERS: u64 = 8;
 
+/// Every way of writing a conversion or command after a plain result: `2 m ; <this> ; ans`.
+/// None of them is a plain expression, so the register must still hold 2 m afterwards.
+const NON_PLAIN: [&str; 34] = [
+    "7 m -> base 10", "7 m -> base 16", "7 m -> base 2", "7 m -> hex", "7 m -> oct", "7 m -> bin", "7 m -> digits", "7 m -> digits 10", "7 m -> digits 0",
+    "7 m -> sci", "7 m -> eng", "7 m -> frac", "7 m -> fraction", "7 m -> ratio", "7 m -> m", "7 m -> 1 m", "7 m to m", "7 m in m", "7 m -> ft;inch", "7 m -> digits 3 base 10",
+    "7 m -> base 10 ft", "7 -> base 10", "7 s -> base 10", "7 s -> s", "#2020-01-01# -> UTC", "#2020-01-01# -> +01:00", "100 K -> degC", "units for m", "factorize velocity",
+    "search meter", "meter", "length", "water", "7 m -> to_string_does_not_exist",
+];
+
 pub struct C15 {
     fams: Fams,
     depth: u64,
@@ -58,6 +67,7 @@ impl C15 {
         // histories in which the flag is switched between queries
         let d_tog = if thorough { 6 } else { 4 };
         fams.add("all histories over 6 queries + flag on + flag off", vec![TOG_LETTERS.pow(d_tog)]);
+        fams.add("every conversion / command spelling between a plain result and a use of ans", vec![NON_PLAIN.len() as u64, 2]);
         C15 { fams, depth, db_order, pristine: Lazy::new(), reg_hash: Lazy::new() }
     }
 }
@@ -240,7 +250,7 @@ impl Space for C15 {
         Meta {
             id: "C15",
             level: "model_checking",
-            rule: format!("explicit-state exploration over a 16-query alphabet (one per reply kind and per way of touching ans: numbers, ans/_/ANS uses, an error, conversions, a definition lookup, units for, search, a time-valued result, a substance, a date, a unit list, an inline definition and a use of its name) with the feature flag on and off: every history up to depth {} is replayed on a freshly loaded real Context through rink_core::eval, and one long-lived Context is fed a de Bruijn sequence B(16,{}) (every length-{} window from a different non-initial state). Plus every history of depth {} over 6 queries and the two settings changes <flag on>/<flag off> made between queries on one context (initially off). Model = one register (ans) and the flag. At every transition: serialised reply == reply of a pristine context evaluated through a shared reference with previous_result := register; ans == register; registry sizes/settings unchanged; full Debug dump of the registry compared at the end of histories. state = (register value, dimensionality, flag)", self.depth, self.db_order, self.db_order, self.tog_depth()),
+            rule: format!("explicit-state exploration over a 16-query alphabet (one per reply kind and per way of touching ans: numbers, ans/_/ANS uses, an error, conversions, a definition lookup, units for, search, a time-valued result, a substance, a date, a unit list, an inline definition and a use of its name) with the feature flag on and off: every history up to depth {} is replayed on a freshly loaded real Context through rink_core::eval, and one long-lived Context is fed a de Bruijn sequence B(16,{}) (every length-{} window from a different non-initial state). Plus every history of depth {} over 6 queries and the two settings changes <flag on>/<flag off> made between queries on one context (initially off). Plus `2 m ; X ; ans` for 34 spellings X of conversions and commands (every base/digits/notation modifier, `to`/`in`, unit lists, date and temperature conversions, units for / factorize / search / definition lookups). Model = one register (ans) and the flag. At every transition: serialised reply == reply of a pristine context evaluated through a shared reference with previous_result := register; ans == register; registry sizes/settings unchanged; full Debug dump of the registry compared at the end of histories. state = (register value, dimensionality, flag)", self.depth, self.db_order, self.db_order, self.tog_depth()),
             assumptions: vec![
                 "the model register is updated from the pristine context's reply, so the reference is exactly the statement's 'fresh context with the same previous answer'".into(),
                 "full registry dumps are compared at the end of every 16th history (every history in the thorough tier) and every 512 steps of the de Bruijn run; cheap size fingerprints at every transition".into(),
@@ -257,6 +267,8 @@ impl Space for C15 {
         if f < 2 {
             let letters = decode(d[1], &vec![ALPHA.len() as u64; self.hist_depth(f)]);
             format!("flag {}: {}", f == 0, letters.iter().map(|i| ALPHA[*i as usize].0).collect::<Vec<_>>().join(" ; "))
+        } else if f == 4 {
+            format!("flag {}: 2 m ; {} ; ans", d[1] == 1, NON_PLAIN[d[0] as usize])
         } else if f == 3 {
             let letters = decode(d[0], &vec![TOG_LETTERS; self.tog_depth()]);
             format!("flag initially off: {}", letters.iter().map(|i| match *i { 6 => "<flag on>", 7 => "<flag off>", k => TOG[k as usize].0 }).collect::<Vec<_>>().join(" ; "))
@@ -287,7 +299,7 @@ impl Space for C15 {
     }
     fn run(&mut self, idx: u64) -> CaseOut {
         let (f, d) = self.fams.locate(idx);
-        let flag = if f < 2 { f == 0 } else if f == 3 { false } else { d[0] == 1 };
+        let flag = if f < 2 { f == 0 } else if f == 3 { false } else if f == 4 { d[1] == 1 } else { d[0] == 1 };
         let hist_depth = if f < 2 { self.hist_depth(f) } else { 0 };
         let thorough = self.depth >= 4;
         let tog_depth = if f == 3 { self.tog_depth() } else { 0 };
@@ -306,6 +318,10 @@ impl Space for C15 {
                     st.bad.push(("database changed by a query (full dump)".into(), format!("after [{}]", st.hist_text())));
                 }
             }
+        } else if f == 4 {
+            st.step_q("2 m", true);
+            st.step_q(NON_PLAIN[d[0] as usize], false);
+            st.step_q("ans", true);
         } else if f == 3 {
             let letters = decode(d[0], &vec![TOG_LETTERS; tog_depth]);
             for l in letters {
@@ -340,7 +356,7 @@ impl Space for C15 {
                 st.bad.push(("database changed by a query (full dump)".into(), "end of de Bruijn run".to_string()));
             }
         }
-        let mut out = CaseOut::ok(if f < 2 { "history" } else if f == 3 { "history with flag changes" } else { "de Bruijn run" });
+        let mut out = CaseOut::ok(if f < 2 { "history" } else if f == 3 { "history with flag changes" } else if f == 4 { "conversion spelling history" } else { "de Bruijn run" });
         out.keys = st.states.clone();
         out = out.count("transitions", st.transitions).count("histories", 1).count("full_dumps", full);
         // one report per distinct signature per history
